@@ -848,10 +848,11 @@ def _do_quant(world, op, stats, hist, seq):
             g.manual_seed(op["seed"])
             crit = build_criterion(op["criterion"])
             shape = (op["n"],) if not op["cols"] else (op["n"], op["cols"])
-            x = torch.randn(*shape, generator=g)
+            cdt = torch.float64 if op["seed"] % 2 else torch.float32   # caller tensors in either precision
+            x = torch.randn(*shape, generator=g, dtype=torch.float64).to(cdt)
             if op["criterion"]["kind"] == "IsoelasticLoss":
                 x = x.abs() + 2.0
-            tgt = {"none": None, "float": 0.25, "tensor": torch.randn(*shape, generator=g) * 0.1}[op["target"]]
+            tgt = {"none": None, "float": 0.25, "tensor": (torch.randn(*shape, generator=g, dtype=torch.float64) * 0.1).to(cdt)}[op["target"]]
             callers = _callers(input=x, target=tgt)
             site = "criterion:%s.%s" % (op["criterion"]["kind"], "cash" if op["cash"] else "forward")
             fn = crit.cash if op["cash"] else crit
